@@ -375,6 +375,7 @@ func runC16(r *core.Run) (bool, string) {
 		"WaitTimeout: schedules = class {none, signal-before, signal-during, signal-at-timeout, signal-after-timeout, broadcast-during with 1–4 waiters, storm} × {fresh Cond, Cond reused after 1–3 timed-out calls}, distinct by (class, state, timeout, waiters, earlier calls); lock state observed through a tracking sync.Locker given to sync.NewCond; " +
 		"several timed waiters on one Cond (waittimeout_multi_* keys): full grid k ∈ {2,3,4} WaitTimeout callers parked in start order × timeouts {equal, increasing, decreasing, all 60 s} × signals {none, one Signal, Signals for all but one, Broadcast} × sent {before, between, after} the deadlines × {fresh, reused Cond} × a plain cond.Wait waiter {absent, at the head, second} in the queue; every timed waiter must be back by its own timeout + Δ with the lock held, and j Signals (a Broadcast) sent ≥ 20 ms before the first deadline while all were parked must bring back ≥ j (all) within Δ; " +
 		"class signal-held-across-expiry (waittimeout_hold_* keys): full grid timeout × (signaller takes the lock −20…+5 ms around the expiry) × (keeps it 0…40 ms after Signal/Broadcast) on fresh and reused Conds, run in child processes that contain no goroutine or timer besides caller, signaller and WaitTimeout's own; " +
+		"class lock-busy-at-expiry (waittimeout_busy_* keys): full grid locker kind {sync.Mutex, sync.RWMutex write side, RWMutex.RLocker(), counting wrappers over a Mutex with and without TryLock and over an RWMutex} × who holds the lock when the timer fires {nobody, one silent holder, two / three silent holders in a row, one silent reader (RWMutex kinds), a holder that Signals once per waiter, a holder that Broadcasts} × timeout {0,1,5,20 ms} × {1,2,3} waiters (equal or staggered timeouts); each participant asks for the lock only after the previous one announced, lock in hand, that it is about to call WaitTimeout, so the first holder owns the lock from the moment the last waiter is parked; with the counting wrappers the last holder keeps it until it has seen one lock attempt per waiter by a goroutine that is neither waiter nor holder (WaitTimeout's own), silent holders then release without Signal/Broadcast; per waiter at return: TryLock from another goroutine refused, and on a logical event counter not (holder acquire < return < holder release); same child-process discipline as the previous class; distinct by (locker, holder pattern, timeout, waiters); " +
 		"concurrency layer (conc_* keys): every primitive of package machine that takes no caller-shared state (UInt64ToString, UInt64/32 Put+Get, MapClear, Assume/Assert, RandomUint64, Linearize/TimeNow/Sleep/NewProph, WaitTimeout on a private Cond, and a mix of them) × {2,3,8,16} goroutines released together, each on state private to it and checking its own results against the sequential oracles, once in this binary (wrong results) and once in a -race build (DATA RACE blocks with a /repo frame, de-duplicated by outermost /repo frame pair); distinct by (child, primitive, goroutines); " +
 		"the call must return with the lock held; 'never returns' is decided only by the Go runtime's 'all goroutines are asleep - deadlock!' report of that process (a wall-clock watchdog only yields inconclusive); the observed position of the signaller's lock interval relative to the expiry is recorded per schedule")
 	r.Assume("the Go runtime's sync.Mutex, sync.Cond, timers and recover() behave as documented; a goroutine is identified by the id in runtime.Stack's header")
@@ -384,6 +385,11 @@ func runC16(r *core.Run) (bool, string) {
 		// replay of a finding of the concurrency layer: run that layer again (same seed, same rounds)
 		c16Concurrent(r)
 		return r.GetCount("conc_plain_calls") > 0, "the concurrency layer could not be run"
+	}
+	if strings.Contains(replaySig(r.Replay), wtBusySigPart) {
+		// replay of a lock-busy-at-expiry scenario: the grid is a function of the seed only
+		c16WaitTimeoutBusy(r)
+		return r.Evals() > 0, "the lock-busy-at-expiry scenarios could not be run"
 	}
 	if strings.Contains(replaySig(r.Replay), "/several-timed-waiters/") {
 		// replay of a several-timed-waiters schedule (10 repetitions of that schedule)
@@ -403,6 +409,11 @@ func runC16(r *core.Run) (bool, string) {
 		c16WaitTimeoutHold(r)
 		if r.NumViolations() == 0 && r.GetCount("waittimeout_hold_lock_observed_held_across_expiry_and_call_returned") < 5 {
 			return false, "fewer than 5 schedules in which the signaller was observed holding the lock across the expiry instant"
+		}
+		c16WaitTimeoutBusy(r)
+		if r.NumViolations() == 0 && (r.GetCount("waittimeout_busy_scenarios_completed") < 40 ||
+			r.GetCount("waittimeout_busy_lock_attempt_of_waittimeout_seen_while_a_silent_holder_had_the_lock_and_every_call_returned") < 10) {
+			return false, "lock-busy-at-expiry scenarios: fewer than 40 completed, or fewer than 10 in which a lock attempt of WaitTimeout's own goroutine was seen while a silent holder had the lock"
 		}
 		c16Concurrent(r)
 		if r.NumViolations() == 0 {
